@@ -36,7 +36,7 @@ LEVELS = {
 }
 BUDGET = {'quick': float(os.environ.get('VERIF_QUICK_S', 40)), 'thorough': float(os.environ.get('VERIF_THOROUGH_S', 600))}
 CHUNK = 48  # multiple of 16: a chunk of a sched:* profile covers whole programs
-RUN_WALL_CAP = 20  # seconds per single simulated run
+RUN_WALL_CAP = 15  # seconds per single simulated run
 
 
 def load_known():
@@ -146,7 +146,9 @@ def _jsonable(v):
 
 
 def same_class(prop, sc, clause, cause):
-    r = props.run_one(prop, sc)
+    r = run_guarded(prop, sc)  # (wall-capped: a shrink candidate may be a much slower run than the original)
+    if 'harness' in r:
+        return None
     for v in r.get('viol', []):
         if v['clause'] == clause and v.get('cause') == cause:
             return v
@@ -338,7 +340,9 @@ def main():
             continue
         seen_classes.add(cls)
         try:
-            small, nruns = shrink.shrink(sc, lambda c: same_class(prop, c, v['clause'], v.get('cause')) is not None, max_runs=300 if tier == 'quick' else 600)
+            t_shrink = time.time() + (90 if tier == 'quick' else 240)  # wall budget per violation class
+            small, nruns = shrink.shrink(sc, lambda c: time.time() < t_shrink and same_class(prop, c, v['clause'], v.get('cause')) is not None,
+                                         max_runs=300 if tier == 'quick' else 600)
             vv = same_class(prop, small, v['clause'], v.get('cause'))
             if vv is None:
                 small, vv = sc, v
